@@ -115,8 +115,47 @@ def run(ctx, rep):
             rep.disagree("K:lipschitz", line[:300], i[:12], m[:12], dict(site=site), input=inp)
     if lines:
         rep.sample(dict(line=lines[0][:300], impl=canon(expect[0])[:8], model=decode(outs[0])[:8]))
+    run_sparse_slices(ctx, rep)
     run_group_constants(ctx, rep)
     run_dominance(ctx, rep)
+
+
+def run_sparse_slices(ctx, rep):
+    """the CSC column slice behind every sparse group constant: the slice must represent X[:, cols] for any list of
+    columns — empty columns first, last and in the middle, repeated and permuted columns"""
+    from scipy import sparse
+    from skglm.utils.sparse_ops import sparse_columns_slice
+    rng = ctx.rng
+    for _ in range(ctx.n(80, 800)):
+        n, p = rng.randrange(1, 8), rng.randrange(1, 9)
+        X = gen_matrix(rng, n, p, rng.choice(["sparse", "sparse", "dyadic", "degenerate"]))
+        for j in range(p):
+            if rng.random() < 0.3:
+                X[:, j] = 0.0
+        Xs = to_csc(X, rng, explicit_zeros=rng.random() < 0.3)
+        cols = np.array(rng.sample(range(p), rng.randrange(1, p + 1)), dtype=np.int32)
+        r = call(sparse_columns_slice, cols, Xs.data, Xs.indptr, Xs.indices)
+        rep.count("sparse_columns_slice", False, ("slice", hash(X.tobytes()), tuple(cols)))
+        inp = dict(X=X.tolist(), cols=cols.tolist())
+        ok = not isinstance(r, str)
+        if ok:
+            d, ip, ix = (np.asarray(t) for t in r)
+            # validate the structure before any library touches it (scipy trusts indptr)
+            wellformed = (len(ip) == len(cols) + 1 and ip[0] == 0 and np.all(np.diff(ip) >= 0) and ip[-1] == len(d) == len(ix)
+                          and (len(ix) == 0 or (ix.min() >= 0 and ix.max() < n)))
+            if wellformed:
+                sub = np.zeros((n, len(cols)))
+                for k in range(len(cols)):
+                    for t in range(ip[k], ip[k + 1]):
+                        sub[ix[t], k] += d[t]
+                ok = np.array_equal(sub, X[:, cols])
+            else:
+                ok = False
+        if not ok:
+            rep.violate("sparse_columns_slice does not return the CSC structure of X[:, cols]",
+                        dict(site="sparse_columns_slice", kind="slice"), input=inp,
+                        impl_output=r if isinstance(r, str) else [np.asarray(t).tolist() for t in r],
+                        oracle=dict(dense=X[:, cols].tolist()))
 
 
 def run_group_constants(ctx, rep):
@@ -125,6 +164,9 @@ def run_group_constants(ctx, rep):
     for _ in range(ctx.n(40, 400)):
         n, p = rng.randrange(2, 9), rng.randrange(1, 8)
         X = gen_matrix(rng, n, p)
+        for j in range(p):                      # all-zero columns anywhere inside the groups
+            if rng.random() < 0.2:
+                X[:, j] = 0.0
         y = np.array([rng.choice([-1.0, 1.0]) for _ in range(n)])
         groups, gp, gi = group_layout(rng, p)
         for cls, c in ((QuadraticGroup, 1.0), (LogisticGroup, 0.25)):
